@@ -111,31 +111,55 @@ def r1_ref_close(c, facts):
         if len(cand) == 1:
             emit = facts.fns[cand[0]]
     allowed = {emit.qname if emit is not None else 'oal_openapi::Builder::reference_schema', 'oal_openapi::oas::into_box_ref'}
+    rs = facts.normalised(emit) if emit is not None else c.anchor(R, 'oal_openapi::Builder::reference_schema')
+    # `self.maybe_inline(name).map_or_else(|| Reference{..}, |s| self.value_schema(s))`: the two arms are the two closures of
+    # the adaptor applied to the result of maybe_inline; the $ref belongs in the default one (the None arm)
+    closure_form = None
+    if emit is not None and rs.mir:
+        idx0 = MF.defs_index(rs)
+        cls = {('{closure@%s}' % g.d.get('span', '?')): g for g in facts.closures_of(emit)}
+        for b, t in rs.calls():
+            nm = P.strip((callee_of(t) or {}).get('def', ''))
+            if not re.search(r'Option(::<[^>]*>)?::map_or_else$', nm) or len(t['args']) < 3 or 'l' not in t['args'][0]:
+                continue
+            if not any(P.name_is(x, 'maybe_inline') for x, _, _ in MF.slice_back(rs, t['args'][0]['l'], idx0)['calls']):
+                continue
+            dflt, some = cls.get(t['args'][1].get('ty', '')), cls.get(t['args'][2].get('ty', ''))
+            if dflt is None or some is None:
+                continue
+            dsites = [(fn, b2, s2) for fn, b2, s2 in sites if fn.id == dflt.id]
+            ssites = [(fn, b2, s2) for fn, b2, s2 in sites if fn.id == some.id]
+            if dsites and not ssites:
+                closure_form = (dflt, dsites[0][2])
+                allowed.add(dflt.qname)
     c.floor(R, '$ref constructor sites', len(sites), 2)
     for fn, b, s in sites:
         if fn.qname in allowed:
             c.ok(R, {'$ref constructed in': fn.qname})
         else:
             c.bad(R, 'ref-constructed-in:%s' % fn.qname, '%s constructs a $ref outside reference_schema: it is not covered by the registration rule' % fn.qname)
-    rs = facts.normalised(emit) if emit is not None else c.anchor(R, 'oal_openapi::Builder::reference_schema')
     mi = P.call_blocks(rs, 'Builder::maybe_inline')
     if not mi:
         c.bad(R, 'reference_schema:no-maybe_inline', 'reference_schema no longer decides with maybe_inline')
         return
-    sw = switch_after(rs, mi[0][1])
-    refb = [b for fn, b, s in sites if fn.id == rs.id]
-    if not sw or not refb:
-        c.bad(R, 'reference_schema:shape', 'cannot find the Some/None switch on maybe_inline or the $ref construction in reference_schema')
-        return
-    some_t, none_t, swb = sw
-    if P.only_on_edge(rs, swb, none_t, some_t, refb[0]):
-        c.ok(R, {'reference_schema': '$ref only on the None arm of maybe_inline'})
+    if closure_form:
+        c.ok(R, {'reference_schema': '$ref only in the default closure of map_or_else on maybe_inline (the None arm)'})
+        site_fn, s0 = closure_form
     else:
-        c.bad(R, 'reference_schema:ref-not-only-on-none-arm', 'reference_schema can emit a $ref although maybe_inline returned a schema to inline (or inlines on the None arm): the component may not be registered')
+        sw = switch_after(rs, mi[0][1])
+        refb = [b for fn, b, s in sites if fn.id == rs.id]
+        if not sw or not refb:
+            c.bad(R, 'reference_schema:shape', 'cannot find the Some/None switch on maybe_inline or the $ref construction in reference_schema')
+            return
+        some_t, none_t, swb = sw
+        if P.only_on_edge(rs, swb, none_t, some_t, refb[0]):
+            c.ok(R, {'reference_schema': '$ref only on the None arm of maybe_inline'})
+        else:
+            c.bad(R, 'reference_schema:ref-not-only-on-none-arm', 'reference_schema can emit a $ref although maybe_inline returned a schema to inline (or inlines on the None arm): the component may not be registered')
+        site_fn, s0 = rs, [s for fn, b, s in sites if fn.id == rs.id][0]
     # the Some arm must not emit a Reference; it inlines the value
-    idx = MF.defs_index(rs)
-    s0 = [s for fn, b, s in sites if fn.id == rs.id][0]
-    sl = MF.slice_back(rs, s0['rv']['ops'][0]['l'], idx) if 'l' in s0['rv']['ops'][0] else {'calls': [], 'consts': []}
+    idx = MF.defs_index(site_fn)
+    sl = MF.slice_back(site_fn, s0['rv']['ops'][0]['l'], idx) if 'l' in s0['rv']['ops'][0] else {'calls': [], 'consts': []}
     names = {P.strip(n) for n, _, _ in sl['calls']}
     key_fn_emit = 'untagged' if any(n.endswith('Ident::untagged') for n in names) else None
     prefix_ok = any('#/components/schemas/' in (k.get('d') or '') for k in sl['consts'])
